@@ -12,6 +12,7 @@ import (
 	"hpverif/internal/fsx"
 
 	"github.com/hack-pad/hackpadfs"
+	hpos "github.com/hack-pad/hackpadfs/os"
 )
 
 // C02: file handles behave like os.File.
@@ -131,6 +132,9 @@ func c02random(env *core.Env, idx int) c02case {
 	if r.Intn(5) == 0 {
 		cs.Subject, nh = "kvplain", 1
 	}
+	if idx%12 == 5 {
+		cs.Subject = "os" // every twelfth script also runs on the library's os.FS
+	}
 	l := r.Intn(16)
 	if r.Intn(10) == 0 {
 		l = 100 + r.Intn(5000)
@@ -243,13 +247,31 @@ func c02run(env *core.Env, idx int) core.CaseResult {
 		return res
 	}
 	defer ref.Cleanup()
-	sub, err := fsx.NewSubject(cs.Subject)
-	if err != nil {
-		res.Violate("C02|setup", err.Error(), nil)
-		return res
+	var subFS hackpadfs.FS
+	if cs.Subject == "os" {
+		// the library's own os.FS: its handle wrappers must behave like the *os.File they wrap
+		d, err := os.MkdirTemp(env.Scratch, "c02os-")
+		if err != nil {
+			res.Inconclusive = err.Error()
+			return res
+		}
+		defer os.RemoveAll(d)
+		_ = os.Chmod(d, 0o777)
+		subFS, err = hpos.NewFS().Sub(d[1:])
+		if err != nil {
+			res.Violate("C02|setup", err.Error(), nil)
+			return res
+		}
+	} else {
+		sub, err := fsx.NewSubject(cs.Subject)
+		if err != nil {
+			res.Violate("C02|setup", err.Error(), nil)
+			return res
+		}
+		subFS = sub.FS
 	}
 	R := &c02side{fs: ref}
-	S := &c02side{fs: sub.FS}
+	S := &c02side{fs: subFS}
 	defer R.hs.CloseAll()
 	defer S.hs.CloseAll()
 	for _, side := range []*c02side{R, S} {
